@@ -283,7 +283,7 @@ impl<const N: usize> ScenN<N> {
     /// `<id>:<kind>[:arg]` applied to a blob file in place; its index file is removed so that the blob is scanned.
     /// kinds: magic (blob header magic), hflip:<n> (flip a byte in the header of record n), dflip:<n> (flip a data
     /// byte of record n), cut:<k> (remove k bytes from the end), keepidx is not supported here
-    fn damage_blob(&self, spec: &str) {
+    fn damage_blob(&mut self, spec: &str) {
         let parts: Vec<&str> = spec.split(':').collect();
         if parts.len() < 2 {
             return;
@@ -318,8 +318,13 @@ impl<const N: usize> ScenN<N> {
             }
             _ => return,
         }
-        std::fs::write(&path, bytes).unwrap();
+        std::fs::write(&path, &bytes).unwrap();
         let _ = std::fs::remove_file(path.with_extension("index"));
+        // the damage is done by the environment, not by pearl: the reference snapshot follows it
+        let name = path.file_name().unwrap().to_string_lossy().to_string();
+        if self.snap.contains_key(&name) {
+            self.snap.insert(name, bytes);
+        }
     }
 
     /// byte snapshot of every blob file (work dir and corrupted dir) compared with the previous snapshot:
@@ -914,6 +919,34 @@ impl<const N: usize> ScenN<N> {
                 Self::drain(st).await;
                 if st.verif_worker_alive() { "alive".into() } else { "dead".into() }
             }
+            "indexsum" => {
+                let states = st.verif_blob_states().await;
+                let mut s = String::from("#indexsum");
+                for b in states {
+                    if !b.index_on_disk {
+                        continue;
+                    }
+                    let p = dir.join(format!("t.{}.index", b.id));
+                    let mut bytes = std::fs::read(&p).unwrap_or_default();
+                    if bytes.len() < 83 {
+                        s.push_str(&format!(" {}:short", b.id));
+                        continue;
+                    }
+                    let mut m = [0u8; 8];
+                    m.copy_from_slice(&bytes[24..32]);
+                    let ml = u64::from_le_bytes(m) as usize;
+                    for x in bytes[40..72].iter_mut() {
+                        *x = 0;
+                    }
+                    let end = (83 + ml).min(bytes.len());
+                    for x in bytes[83..end].iter_mut() {
+                        *x = 0;
+                    }
+                    let crc = crc::Crc::<u32>::new(&crc::CRC_32_ISCSI).checksum(&bytes);
+                    s.push_str(&format!(" {}:{}:{}:{}", b.id, bytes.len(), ml, crc));
+                }
+                s
+            }
             "blobsum" => {
                 let states = st.verif_blob_states().await;
                 let mut s = String::from("#blobsum");
@@ -1145,7 +1178,7 @@ fn new_scen(cfg: Cfg, dir: PathBuf) -> Option<Box<dyn Scen>> {
             }
         };
     }
-    mk!(1, 4, 8, 33, 128)
+    mk!(1, 4, 8, 33, 128, 1000)
 }
 
 pub fn run_lines(lines: &[String], base: &Path, keep: bool, out: &mut dyn FnMut(&str)) {
